@@ -56,6 +56,8 @@ def jobs(tier):
                     if q and axis != nlead - 1 and D == 3:
                         continue
                     J("ob_concat", D=D, nlead=nlead, sig=sig, axis=axis, form="tuple" if axis == nlead - 1 else "dict")
+                    if D == 2 and len(sig) > 1 and axis == nlead - 1:
+                        J("ob_concat", D=D, nlead=nlead, sig=sig, axis=axis, form="dict+zero")
                     J("ob_expand", D=D, nlead=nlead, sig=sig, axis=axis)
                 if nlead >= 1:
                     for ndev in ([2] if q else [1, 2, 4]):
@@ -209,6 +211,8 @@ def ob_concat(D, nlead, sig, axis, form):
             sg = b.get_signature()
         else:
             sg = {k: v.shape[axis] for k, v in b.items()}
+            if form == "dict+zero":          # an explicit "nothing of this type" entry for every type that only a holds
+                sg.update({k: 0 for k in A if k not in B})
         return c.concat_inverse(sg, axis)
 
     def post(res):
